@@ -1,6 +1,6 @@
 """C15 — XML5 parse result independent of chunking and diagnostic options (DESIGN 4.C15)."""
 from . import tokrules as tr
-from . import tok_common
+from . import tok_common, nf_common
 
 MANIFEST = {
     "text": "The chunk-independence and option-independence rules of C03/C08 applied to xml5ever's tokenizer tables (50 states x exact char partition): fast-path sets contain every character the preprocessing rewrites, BOM flag cleared at stream start, only raw text is pushed back by the char-ref code, eat() resolves a pending CR, no effect before suspension, temp_buf empty at eat(); all tables equal the reviewed reference.",
@@ -41,3 +41,4 @@ def run(ctx):
         ctx.floor("R15.6", "states", len(T["states"]), 50)
 
     ctx.guard("R15.6", "normal-forms", nf)
+    ctx.guard("R15.6", "nf-misc", lambda: nf_common.nf_rule(ctx, "R15.6", "xml_tokenizer_misc", floor=6))
